@@ -488,7 +488,7 @@ def rule_close_payload(ctx, rule_id="C02.2-close-payload"):
            f"{len(bad)} codes judged wrongly ({how}), e.g. {bad[:6]}", where)
     # code None (empty close payload) is not a violation
     try:
-        none_bad = pred(None)
+        none_bad = cell_pred(None)   # the whole prefix of the method is evaluated: the None test may sit in an enclosing condition
     except TypeError:
         none_bad = True
     ctx.ob("empty close payload (code None) accepted", none_bad is False, "code None is treated as invalid or crashes the predicate", where)
@@ -857,6 +857,10 @@ def run(ctx):
     rule_progress(ctx)
     from .c01 import rule_asyncio_queue
     rule_asyncio_queue(ctx, "C02.9-asyncio-reads-reach-the-decoder-in-order")
+    from .common import rule_default_options
+    rule_default_options(ctx, "C02.10-default-options", (("WebSocketServerFactory", "requireMaskedClientFrames", True), ("WebSocketClientFactory", "acceptMaskedServerFrames", False),
+                                                          ("WebSocketServerFactory", "utf8validateIncoming", True), ("WebSocketClientFactory", "utf8validateIncoming", True)),
+                         "with nothing configured the endpoint must judge masking per role and text payloads as RFC 6455 prescribes")
 
 
 def rule_progress(ctx, rule_id="C02.7-complete-frames-need-no-further-octets"):
